@@ -126,6 +126,40 @@ def wildcard(res):
         exp = sorted([(r[ci], r[ai]) for r in ROWS], key=repr)
         if d != want or sorted([tuple(r) for r in rows], key=repr) != exp:
             res.violation('h07:wildcard:declared-order', '* expands to the table default columns in their declared order', {'query': q}, (d, rows[:2]), (want, exp[:2]))
+    # a statement parsed once and executed against different tables: `*` expands to the columns of the table at hand each time
+    from beanquery import parser as _parser
+    stmt = _parser.parse('SELECT * FROM #t')
+    nested = _parser.parse('SELECT * FROM (SELECT * FROM #t)')
+    other = make_conn(t=([('p', int), ('q', str)], [(1, 'x'), (2, 'y')]))
+    for st, label in ((stmt, 'plain'), (nested, 'nested')):
+        for c2, want in ((conn, ['a', 'b', 'c']), (other, ['p', 'q']), (conn, ['a', 'b', 'c'])):
+            res.case(('wild-parsed-once', label, tuple(want)))
+            try:
+                cur = c2.execute(st)
+                d, n = [c.name for c in cur.description], {len(r) for r in cur.fetchall()}
+            except Exception as e:  # noqa
+                d, n = f'{type(e).__name__}: {e}', set()
+            if d != want or n - {len(want)}:
+                res.violation('h07:wildcard:parsed-once', '* expands to the default columns of the table the statement is executed against, also for a statement parsed once', {'statement': label}, d, want)
+    # a group key referenced twice (position and name): every cell still holds the value of its own target
+    for q, plain in [('SELECT a, c, count(*) FROM #t GROUP BY 1, a, c', 'SELECT a, c, count(*) FROM #t GROUP BY a, c'), ('SELECT b, a, c, count(*) FROM #t GROUP BY a, a, b, c', 'SELECT b, a, c, count(*) FROM #t GROUP BY a, b, c')]:
+        res.case(('dup-group-ref', q))
+        try:
+            got, want = conn.execute(q).fetchall(), conn.execute(plain).fetchall()
+        except Exception as e:  # noqa
+            got, want = f'{type(e).__name__}: {e}', None
+        if got != want:
+            res.violation('h07:dup-group-ref:' + q[:60], 'every cell holds the value of its own target expression (repeated GROUP BY references change nothing)', {'query': q}, got if isinstance(got, str) else got[:3], want[:3] if want else None)
+    # `*` over a subquery names the columns exactly as the subquery does (expression text with upper-case letters included)
+    for inner in ['SELECT SUM(a), b FROM #t GROUP BY b', "SELECT a + A, b = 'X' FROM #t", 'SELECT Length(b), UPPER(b) FROM #t']:
+        res.case(('wild-subquery-names', inner))
+        try:
+            idesc = [c.name for c in conn.execute(inner).description]
+            odesc = [c.name for c in conn.execute(f'SELECT * FROM ({inner})').description]
+        except Exception as e:  # noqa
+            idesc, odesc = 'inner', f'{type(e).__name__}: {e}'
+        if idesc != odesc:
+            res.violation('h07:wildcard:subquery-names', '* over a subquery returns its output columns under their names', {'inner': inner}, odesc, idesc)
     res.case('wild-subquery')
     d = [c.name for c in conn.execute('SELECT * FROM (SELECT c, a + 1 AS k, b FROM #t ORDER BY a)').description]
     if d != ['c', 'k', 'b']:
